@@ -30,9 +30,10 @@ LEVEL = "model_checking"
 ENGINE = "E1"
 TECHNIQUE = ("deviation-bounded exhaustive enumeration of magnetic configurations; every 2-D magnetic result is "
              "re-derived per q point from four non-magnetic calls of the same model with substituted SLDs")
-RULE = ("per model every combination of <=D dimensions off default (per-SLD magnetisation vector, all-SLDs-magnetic, "
+RULE = ("[dev] per model every combination of <=D dimensions off default (per-SLD magnetisation vector, all-SLDs-magnetic, "
         "up_frac_i, up_frac_f, polarisation axis, size dispersity, orientation dispersity); non-trivial = some "
-        "magnitude non-zero and the result differs from the non-magnetic one by >1e-6 relative at some q")
+        "magnitude non-zero and the result differs from the non-magnetic one by >1e-6 relative at some q; "
+        "[cutoff] [precision] [after-refusal]: explicit families, see coverage.bounds.families")
 ASSUMPTIONS = [
     "the model's own non-magnetic 2-D intensity (Iqxy kernel of the same library, same dispersity mesh) is the reference "
     "for every I(.) of the statement; dispersity averaging itself is decided by C01",
@@ -53,13 +54,28 @@ D4_MODELS = ["sphere", "core_shell_sphere", "cylinder", "core_multi_shell", "par
              "hollow_cylinder", "fractal", "multilayer_vesicle", "core_shell_ellipsoid", "binary_hard_sphere",
              "spherical_sld", "triaxial_ellipsoid", "stacked_disks", "polymer_micelle"]
 SLOW_MODELS = ["pringle"]      # numerical double integral per call (~0.1 s per single-q evaluation block)
+# explicit full-product family for the dispersity cut-off (a mesh point qualifies when its weight exceeds the cut-off)
+CUTOFFS = [0.0, 1e-5, 1e-3]
+SPIN_PAIRS = [[0.02, 0.97], [0.97, 0.02], [0.3, 0.8], [0.0, 0.0]]        # channel weights spanning decades
+EPS = {"single": 2.0 ** -23, "quad": 2.0 ** -52, "double": 2.0 ** -52}   # quad results are read back as doubles
+FAMILIES = {
+    "cutoff": "full product per compiled model: {1, 2 magnetic SLDs} x spin pairs %s x cutoff %s x dispersity "
+              "{one size 3 pts, two sizes 8x8 pts nsigma 3, the latter + jitter} x {default, oblique} polarisation"
+              % (SPIN_PAIRS, CUTOFFS),
+    "precision": "single and quad (long double) builds of every model that supports them: every combination of <=2 "
+                 "deviations that contains a magnetic SLD (quad quick: <=1), reference from the SAME-precision "
+                 "non-magnetic kernel; tolerance 64 eps sum|terms| + 2 x first-order response of every channel to "
+                 "an 8-eps perturbation of each effective SLD",
+    "after-refusal": "one kernel object: a refused call (too many dispersed parameters; magnetism on a pure-Python "
+                     "model) followed by an ordinary evaluation that must be bit-identical to a fresh kernel's",
+}
 BOUNDS = {
     "quick": {"models": QUICK_MODELS + PY_MODELS, "D": 3, "python_models_D": 1,
-              "q_points": 9, "vector_sld_elements": "first, second and last used (n=3) of each vector SLD; all 10 in the allmag dimension"},
+              "families": FAMILIES, "q_points": 9, "vector_sld_elements": "first, second and last used (n=3) of each vector SLD; all 10 in the allmag dimension"},
     "thorough": {"models": "all 47 models with SLD parameters", "D": 3, "D4_models": D4_MODELS, "python_models_D": 1,
                  "D2_models": SLOW_MODELS,
                  "D_note": "D=4 models with >4 active SLD dimensions: all D=4 combinations that involve at most 2 SLD dimensions",
-                 "q_points": 9, "vector_sld_elements": "first, second and last used (n=3) of each vector SLD; all 10 in the allmag dimension"},
+                 "families": FAMILIES, "q_points": 9, "vector_sld_elements": "first, second and last used (n=3) of each vector SLD; all 10 in the allmag dimension"},
 }
 CASE_TIMEOUT = 300
 
@@ -126,6 +142,8 @@ def is_py(name):
 def setup(ctx):
     names = [m for m in models(ctx) if not is_py(m)]
     bad = build.prebuild(ctx, names)
+    bad.update(build.prebuild(ctx, [m for m in names if build.info(m).single], dtype="single"))
+    bad.update(build.prebuild(ctx, [m for m in names if m not in SLOW_MODELS], dtype="quad"))
     if bad:
         raise HarnessError("models failed to build: %r" % bad)
 
@@ -166,21 +184,86 @@ def cases(ctx):
                 if sum(1 for key, v in c.items() if key.startswith("M:") and v is not None) > 2:
                     continue
             out.append({"model": name, "dev": k, "cfg": c})
+        if not is_py(name) and name not in SLOW_MODELS:
+            out.extend(_cutoff_cases(ctx, name, dims))
+            out.extend(_precision_cases(ctx, name, dims))
+        out.extend(_refusal_cases(ctx, name, dims))
     return out
+
+
+def _default_cfg(dims):
+    return {d[0]: d[1] for d in dims}
+
+
+def _size_names(info):
+    return [p.name for p in info.parameters.call_parameters if p.type == "volume" and p.name in info.parameters.pd_1d
+            and p.name not in controls(info)]
+
+
+def _cutoff_cases(ctx, name, dims):
+    info = build.info(name)
+    slds = [d for d in dims if d[0].startswith("M:")]
+    if not slds or not _size_names(info):
+        return
+    oriented = bool(info.parameters.orientation_parameters)
+    mags = [{slds[0][0]: slds[0][2][0]}]
+    if len(slds) > 1:
+        mags.append({slds[0][0]: slds[0][2][0], slds[1][0]: slds[1][2][1]})
+    ups = [d for d in dims if d[0] == "up"][0]
+    for mag in mags:
+        for i, f in SPIN_PAIRS:
+            for cutoff in CUTOFFS:
+                for disp in ["size3", "multi"] + (["multi+orient"] if oriented else []):
+                    for up in (ups[1], ups[2][1]):
+                        cfg = _default_cfg(dims)
+                        cfg.update(mag)
+                        cfg.update(up_frac_i=i, up_frac_f=f, up=up, cutoff=cutoff,
+                                   size_pd=_size_names(info)[0] if disp == "size3" else "@multi",
+                                   orient_pd=int(disp.endswith("orient")))
+                        yield {"kind": "cutoff", "model": name, "cfg": cfg}
+
+
+def _precision_cases(ctx, name, dims):
+    info = build.info(name)
+    for dtype in ("single", "quad"):
+        if dtype == "single" and not info.single:
+            continue          # the library builds such models in double whatever is asked for
+        D = 1 if (dtype == "quad" and ctx.quick) else 2
+        pdims = [d for d in dims if d[0] != "allmag"]
+        for k, c in deviations(pdims, D):
+            if not any(key.startswith("M:") and v is not None and v[0] != 0.0 for key, v in c.items()):
+                continue
+            c["allmag"] = 0
+            yield {"kind": "precision", "dtype": dtype, "model": name, "dev": k, "cfg": c}
+
+
+def _refusal_cases(ctx, name, dims):
+    info = build.info(name)
+    slds = [d for d in dims if d[0].startswith("M:")]
+    cfg = _default_cfg(dims)
+    cfg[slds[0][0]] = slds[0][2][0]
+    if is_py(name):
+        yield {"kind": "after-refusal", "reason": "python-magnetism", "model": name, "cfg": cfg}
+    else:
+        npd = len([p for p in info.parameters.call_parameters if p.name in info.parameters.pd_2d])
+        if npd > info.parameters.max_pd:
+            yield {"kind": "after-refusal", "reason": "too-many-dispersed", "model": name, "cfg": cfg}
 
 
 # ------------------------------------------------------------------------------------------------
 _KCACHE = {}
 
 
-def _kernels(ctx, name):
+def _kernels(ctx, name, dtype="double", fresh=False):
     """(kernel over all q points, [kernel per single q point])"""
-    key = (name, ctx.seed)
-    if key not in _KCACHE:
-        m = build.model(name)
+    key = (name, ctx.seed, dtype)
+    if key not in _KCACHE or fresh:
+        m = build.model(name, dtype)
         pts = np.array(qpoints(ctx), float)
         full = m.make_kernel([pts[:, 0].copy(), pts[:, 1].copy()])
         single = [m.make_kernel([pts[j:j + 1, 0].copy(), pts[j:j + 1, 1].copy()]) for j in range(len(pts))]
+        if fresh:
+            return full, single, pts
         _KCACHE[key] = (full, single, pts)
     return _KCACHE[key]
 
@@ -230,7 +313,13 @@ def run_case(case, ctx):
     r = R()
     name, cfg = case["model"], case["cfg"]
     info = build.info(name)
-    full, single, pts = _kernels(ctx, name)
+    kind = case.get("kind", "dev")
+    dtype = case.get("dtype", "double")
+    cutoff = float(cfg.get("cutoff", 0.0))
+    full, single, pts = _kernels(ctx, name, dtype)
+    if dtype != "double" and str(full.dtype) == "float64":
+        raise HarnessError("%s built with dtype=%s is still double" % (name, dtype))
+    eps = EPS[dtype]
     allmag = bool(cfg.get("allmag"))
     base = _base(info, allmag)
     fk = {"model": name}
@@ -238,7 +327,12 @@ def run_case(case, ctx):
 
     # dispersity (shared by implementation and oracle)
     disp = {}
-    if cfg.get("size_pd"):
+    if cfg.get("size_pd") == "@multi":
+        for nm, w in zip(_size_names(info)[:2], (0.15, 0.12)):
+            disp.update({nm + "_pd": w, nm + "_pd_n": 8, nm + "_pd_type": "gaussian", nm + "_pd_nsigma": 3.0})
+        br.append("size-dispersity")
+        br.append("multi-parameter-dispersity")
+    elif cfg.get("size_pd"):
         nm = cfg["size_pd"]
         disp.update({nm + "_pd": 0.1, nm + "_pd_n": 3, nm + "_pd_type": "gaussian", nm + "_pd_nsigma": 2.0})
         br.append("size-dispersity")
@@ -268,14 +362,16 @@ def run_case(case, ctx):
     pars.update(disp)
     plain = dict(pars)
     pars.update(mag)
-    desc = ("call_kernel(%s 2-D kernel, magnetic pars=%s, dispersity=%s, scale=%g, background=%g, other parameters default%s)"
-            "\n  q points (qx,qy)=%s"
-            % (name, mag, disp, SCALE, BACKGROUND,
-               " with view theta=50 phi=25 psi=15" if info.parameters.orientation_parameters else "",
+    desc = ("call_kernel(%s 2-D kernel [dtype=%s], magnetic pars=%s, dispersity=%s, scale=%g, background=%g, other "
+            "parameters default%s, cutoff=%g)\n  q points (qx,qy)=%s"
+            % (name, dtype, mag, disp, SCALE, BACKGROUND,
+               " with view theta=50 phi=25 psi=15" if info.parameters.orientation_parameters else "", cutoff,
                [[float(v) for v in x] for x in pts.round(6)]))
+    if kind == "after-refusal":
+        return _after_refusal(r, ctx, case, name, info, pars, desc)
 
     try:
-        impl = np.array(call_kernel(full, dict(pars)), float)
+        impl = np.array(call_kernel(full, dict(pars), cutoff=cutoff), float)
     except NotImplementedError as exc:
         if any_mag and is_py(name):
             return r.fail("%s: call_kernel refused: %r" % (desc, exc),
@@ -284,7 +380,7 @@ def run_case(case, ctx):
     except Exception as exc:  # noqa
         return r.fail("%s: call_kernel raised %r" % (desc, exc), dict(fk, clause="raises"))
 
-    nonmag = np.array(call_kernel(full, dict(plain)), float)
+    nonmag = np.array(call_kernel(full, dict(plain), cutoff=cutoff), float)
     if not any_mag:
         # the flag must route to the ordinary kernel: bit-for-bit the non-magnetic intensity
         if impl.tobytes() != nonmag.tobytes():
@@ -302,6 +398,8 @@ def run_case(case, ctx):
     ref = np.full(nq, np.nan)
     magn = np.zeros(nq)
     cut = np.zeros(nq)       # weighted intensity of channels the kernel is allowed to omit (weight <= 1e-8)
+    cond = np.zeros(nq)      # first-order response of the channel sum to rounding of the effective SLDs (non-double builds)
+    used = sld_names(info)
     ncalls = 0
     opars = dict(base, scale=1.0, background=0.0)
     opars.update(disp)
@@ -323,12 +421,22 @@ def run_case(case, ctx):
                 continue
             p = dict(opars)
             p.update(sub)
-            val = float(call_kernel(single[j], p)[0])
+            val = float(call_kernel(single[j], p, cutoff=cutoff)[0])
             ncalls += 1
             tot += w * val
             magn[j] += abs(w * val)
             if w <= 1e-8:
                 cut[j] += SCALE * abs(w * val)
+            if dtype == "single":
+                # the kernel forms rho -+ P.Mperp in its own precision: each effective SLD carries a few eps of
+                # (|rho| + |M|); propagate that through the model one SLD at a time (first order, both signs)
+                for s_ in used:
+                    d_ = 8 * eps * (abs(sub[s_]) + abs(base[s_]) + float(np.linalg.norm(M[s_])))
+                    for sg in (1.0, -1.0):
+                        v2 = float(call_kernel(single[j], dict(p, **{s_: sub[s_] + sg * d_}), cutoff=cutoff)[0])
+                        ncalls += 1
+                        if np.isfinite(v2):
+                            cond[j] += SCALE * abs(w) * abs(v2 - val)
         ref[j] = SCALE * tot + BACKGROUND
         magn[j] = SCALE * magn[j] + BACKGROUND
 
@@ -337,12 +445,25 @@ def run_case(case, ctx):
         if not np.isfinite(impl[j]):
             return r.fail("%s: result at q=0 is %r" % (desc, impl[j]), dict(fk, clause="q0-finite"), branches=br)
     keep = [j for j in range(nq) if j not in zero]
-    a, b, mg, ct = impl[keep], ref[keep], magn[keep], cut[keep]
+    a, b, mg, ct = impl[keep], ref[keep], magn[keep], cut[keep] + 2.0 * cond[keep]
+    rtol = 1e-11 if dtype != "single" else 64 * eps
     if not (np.all(np.isfinite(b)) and np.all(np.isfinite(mg))):
         if np.array_equal(np.isnan(a), np.isnan(b)):
             return r.inconc("oracle-nonfinite", trans=ncalls + 2)
     err = np.abs(a - b)
-    bad = ~(err <= 1e-11 * mg + ct) & ~(np.isnan(a) & np.isnan(b))
+    bad = ~(err <= rtol * mg + ct) & ~(np.isnan(a) & np.isnan(b))
+    if kind != "dev":
+        br.append("family:" + kind)
+    if dtype != "double":
+        br.append("precision:" + dtype)
+    if cutoff > 0:
+        nall = _mesh_size(info, pars)
+        br.append("cutoff>0")
+        wmin = min(w for w in (w_dd, w_du, w_ud, w_uu) if w > 0)
+        if "multi-parameter-dispersity" in br and wmin < 0.05:
+            br.append("cutoff>0:multi-dispersity:unequal-spin-weights")
+        if nall and _mesh_qualifying(info, pars, cutoff) < nall:
+            br.append("cutoff-excludes-mesh-points")
     if np.any(ct > 0):
         br.append("channel-below-kernel-cutoff")
     if up_i != min(max(up_i, 0.0), 1.0) or up_f != min(max(up_f, 0.0), 1.0):
@@ -371,7 +492,8 @@ def run_case(case, ctx):
                       "  non-magnetic=%s"
                       % (desc, a, b, pts[keep[j]][0], pts[keep[j]][1], a[j], b[j], (w_dd, w_du, w_ud, w_uu),
                          nonmag[keep]),
-                      dict(fk, clause="channel-sum"), branches=br, nt=nt, trans=ncalls + 2)
+                      dict(fk, clause="channel-sum", **({"dtype": dtype} if dtype != "double" else {})),
+                      branches=br, nt=nt, trans=ncalls + 2)
     r.ok(nt=nt, outcome="m%d:sf%d:d%d:o%d" % (min(nmag, 3), int(w_sf > 0), int("size-dispersity" in br),
                                               int("orientation-dispersity" in br)),
          trans=ncalls + 2, branches=br)
@@ -382,7 +504,63 @@ def run_case(case, ctx):
     return r
 
 
+def _mesh_weights(info, pars):
+    from sasmodels.direct_model import get_mesh
+    mesh = get_mesh(info, {k: v for k, v in pars.items()}, dim="2d")
+    ws = [np.asarray(w, float) * (np.abs(np.cos(np.radians(np.asarray(d, float)))) if p.name == "theta" else 1.0)
+          for p, (v, d, w) in zip(info.parameters.call_parameters, mesh) if len(w) > 1]
+    return ws
+
+
+def _mesh_size(info, pars):
+    return int(np.prod([len(w) for w in _mesh_weights(info, pars)])) if _mesh_weights(info, pars) else 0
+
+
+def _mesh_qualifying(info, pars, cutoff):
+    ws = _mesh_weights(info, pars)
+    tot = np.ones(1)
+    for w in ws:
+        tot = np.outer(tot, w).ravel()
+    return int(np.sum(tot > cutoff))
+
+
+def _after_refusal(r, ctx, case, name, info, pars, desc):
+    """a refused call must leave no trace on the kernel object"""
+    from sasmodels.direct_model import call_kernel
+    full, _, _ = _kernels(ctx, name, fresh=True)
+    fresh, _, _ = _kernels(ctx, name, fresh=True)
+    reason = case["reason"]
+    fk = {"model": name, "clause": "after-refusal", "reason": reason}
+    if reason == "python-magnetism":
+        bad_pars, good = dict(pars), {k: v for k, v in pars.items() if not k.endswith(("_M0", "_mtheta", "_mphi"))}
+    else:
+        good = dict(pars)
+        bad_pars = dict(pars)
+        for p in info.parameters.call_parameters:
+            if p.name in info.parameters.pd_2d:
+                bad_pars.update({p.name + "_pd": 0.1 if p.type != "orientation" else 5.0, p.name + "_pd_n": 2})
+    try:
+        call_kernel(full, dict(bad_pars))
+    except (ValueError, NotImplementedError):
+        pass
+    else:
+        return r.ok(outcome="not-refused", branches=["after-refusal:not-refused"])
+    after = np.array(call_kernel(full, dict(good)), float)
+    ref = np.array(call_kernel(fresh, dict(good)), float)
+    if after.tobytes() != ref.tobytes():
+        return r.fail("%s evaluated on a kernel whose previous call was refused (%s)\n  after refusal=%s\n  fresh kernel =%s"
+                      % (desc, reason, after, ref), fk, branches=["after-refusal"])
+    return r.ok(nt=True, outcome="after-refusal", trans=3, branches=["after-refusal", "after-refusal:" + reason])
+
+
 def finish(ctx, report):
+    report.require("family:cutoff", 200, "cut-off family")
+    report.require("cutoff>0:multi-dispersity:unequal-spin-weights", 100,
+                   "cut-off > 0 with multi-parameter dispersity and a spin weight < 0.05")
+    report.require("cutoff-excludes-mesh-points", 50, "the cut-off removes mesh points")
+    report.require("precision:single", 200, "single-precision builds")
+    report.require("precision:quad", 50, "long-double builds")
+    report.require("after-refusal", 5, "evaluation after a refused call")
     report.require("python-refused", 2, "pure-Python models with SLDs (explicit refusal recorded)")
     report.require("all-zero-bitwise", 20, "all magnitudes zero -> ordinary kernel, bit-for-bit")
     report.require("clipped-fraction", 50, "up fractions outside [0,1]")
